@@ -365,6 +365,11 @@ func doSearch(seed int64, chains int) {
 			if run.Panic != "" {
 				fmt.Println("PANIC", run.Panic)
 			}
+			if run.Hang {
+				b, _ := json.Marshal(run)
+				fmt.Println("HANG chain", kind, string(b))
+				return
+			}
 			if run.RawPlan == nil {
 				break
 			}
@@ -398,6 +403,11 @@ func doSearch(seed int64, chains int) {
 		in := bg.Adversarial(r, *searchM, *searchT, *searchP)
 		run := bg.RunSticky(in)
 		adv++
+		if run.Hang {
+			b, _ := json.Marshal(run)
+			fmt.Println("HANG adversarial", string(b))
+			return
+		}
 		if len(run.Oracle.Picks) > 0 {
 			advPicks++
 		}
